@@ -327,7 +327,9 @@ func (c *Ctx) Finish(verifDir string, seed int, explanation string, assumptions 
 		}
 		for i := range c.Known {
 			k := &c.Known[i]
-			if k.Property == c.Property && k.Rule == o.Rule && k.Construct == o.Construct {
+			// a finding recorded for the property that owns the rule also matches when that rule
+			// runs as a related rule in another property's thorough tier
+			if (k.Property == c.Property || strings.HasPrefix(k.Rule, k.Property+".")) && k.Rule == o.Rule && k.Construct == o.Construct {
 				o.Status = Known
 				k.used = true
 				if o.Detail == "" {
